@@ -103,6 +103,25 @@ PROPS = {
         "assumptions": ["decimal -> f64 -> decimal ({:.N} printing) is the identity when integer digits + printed decimals <= 15; outside that region only the oracle speaks (finding class f64-precision)",
                         "str::parse::<f64> on a plain decimal returns the correctly rounded value"],
     },
+    "C16": {
+        "streams": ["c16"],
+        "driver": True,
+        "extractors": [],
+        "instances": 0,
+        "rule": "block-4 texts of all 30 types from the grammar generator (LF/CRLF, with/without terminator) and mutants (text before the first "
+                "field, a content line starting with ':', an empty value; thorough: 66000 fields) through parse_block4_fields, judged by the "
+                "independent tokeniser (every field once under its documented normalised tag, trimmed content, input order, stamps strictly "
+                "increasing); each resulting map through find_field_with_variant_sequential_constrained for six base tags (every occurrence "
+                "exactly once, in order) and through split_into_sequences under 8 configurations (partition); random request histories "
+                "(next+mark, raw mark) through FieldConsumptionTracker; tokeniser and tracker compared with the compiled Lean model. "
+                "distinct = (stream, text / history)",
+        "modelled": "parse_block4_fields (loop, stamps, normalize_field_tag, extract_base_tag), FieldConsumptionTracker, the final distribution "
+                    "step of split_into_sequences; the boundary search of split_into_sequences and the constrained finder are covered by the "
+                    "oracle only",
+        "trusted_base": [KERNEL, HARNESS, "hand model SwiftMT/Tokeniser.lean (ASCII texts; compared on every generated case)"],
+        "assumptions": ["block-4 texts are ASCII (the implementation indexes chars().nth with a byte offset when counting lines; only the line-number half of the stamp depends on it)",
+                        "HashMap<String, Vec<..>> keeps insertion order within each Vec"],
+    },
     "C17": {
         "streams": ["c17"],
         "driver": True,
